@@ -182,7 +182,7 @@ class Printer:
                          'open' if i == 0 else 'cont')
                 self.body(body)
             if els is not None:
-                self.tag('else', [], 'cont')
+                self.tag('else', self.endargs(first), 'cont')
                 self.body(els)
             self.tag('if', self.endargs(first), 'close')
         elif k == 'unless':
@@ -194,7 +194,7 @@ class Printer:
             self.tag('in', [_ref(ref, st)] + _opts(opts, st), 'open')
             self.body(body)
             if els is not None:
-                self.tag('else', [], 'cont')
+                self.tag('else', self.endargs(ref), 'cont')
                 self.body(els)
             self.tag('in', self.endargs(ref), 'close')
         elif k == 'with':
